@@ -33,7 +33,7 @@ def spin_shapes(rng, n):
         ap = rng.choice(appends)
         pat = rng.choice(pats)
         hd = rng.choice(handlers)
-        kind = rng.randrange(9)
+        kind = rng.randrange(13)
         if kind == 0:
             body = f'"x"; loop {{ try {{ {ap} {pat}; }} catch (outofspace) {{ {hd} }} }}'
         elif kind == 1:
@@ -50,10 +50,20 @@ def spin_shapes(rng, n):
             body = f'"x"; loop {{ try {{ {ap} {ap} {pat}; }} catch {{ {hd} }} }}'
         elif kind == 7:
             body = f'loop {{ try {{ {pat}; {ap} }} catch (outofspace) {{ try {{ {ap} {pat}; }} catch (outofspace) {{ {hd} }} }} }}'
-        else:
+        elif kind == 8:
             body = f'foreach {{ {pat}; }} do {{ s += [$last]; }} loop {{ try {{ {ap} "k"; }} catch (outofspace) {{ {hd} }} }}'
+        # cycles of fall-throughs that the compiler's own loop check has to reject (or that are fine)
+        elif kind == 9:
+            body = f'loop {{ case {{ {pat} -> {{ i = 1; }} else -> {{ if i == 1 {{ break; }} }} }} }} "z";'
+        elif kind == 10:
+            body = f'loop outer {{ loop {{ case {{ {pat} -> {{ i = 1; }} else -> {{ break; }} }} }} i = 3; {rng.choice(["", chr(34) + "q" + chr(34) + ";"])} }}'
+        elif kind == 11:
+            body = f'optional {{ "#"; }} loop {{ case {{ {pat} -> {{ i = [i + 1]; }} else -> {{ i = 0; }} }} }}'
+        else:
+            body = f'try {{ "xy"; }} catch (nomatch) {{ }} loop {{ try {{ {pat}; }} catch (nomatch) {{ {rng.choice(["", "i = 1;"])} }} }}'
         src = decl + "parser {\n  " + body + "\n}\n"
-        out.append({"name": f"spin-{k}", "src": src, "feats": {}, "args": [], "origin": "spin-shape"})
+        out.append({"name": f"spin-{k}", "src": src, "feats": {}, "args": [], "origin": "spin-shape",
+                    "level": rng.choice(["-O0", "-O1", "-O3"])})
     return out
 
 
@@ -65,7 +75,7 @@ def work(job):
     wd = os.path.join(wd_root, str(os.getpid()))
     shutil.rmtree(wd, ignore_errors=True)
     os.environ["DRV_ALARM"] = "2"
-    c = rtdiff.Case(prog, ["-O1"] + prog["args"], wd)
+    c = rtdiff.Case(prog, [prog.get("level", "-O1")] + prog["args"], wd, exclude_known_spin=False)
     if not c.ok:
         res["status"] = c.why
         shutil.rmtree(wd, ignore_errors=True)
